@@ -8,6 +8,7 @@ import (
 	"mime"
 	"mime/multipart"
 	"net/http"
+	"sort"
 	"strings"
 	"sync"
 
@@ -67,6 +68,8 @@ type Fakes struct {
 	// Values collects every scalar leaf a service put into an answer (taint oracle).
 	Values map[string]bool
 	Taint  bool
+	// FaultsApplied counts faults that actually changed an answer in this execution.
+	FaultsApplied int
 
 	mu    sync.Mutex
 	cache map[string]*ast.QueryDocument
@@ -83,6 +86,7 @@ func NewFakes(w *World) *Fakes {
 
 func (f *Fakes) Reset() {
 	f.Reqs, f.Calls, f.Other = nil, nil, nil
+	f.FaultsApplied = 0
 	for _, c := range f.Cnt {
 		for k := range c {
 			delete(c, k)
@@ -148,22 +152,33 @@ func (f *Fakes) RoundTrip(r *http.Request) (*http.Response, error) {
 	if fault != nil {
 		switch fault.Kind {
 		case "transport":
+			f.FaultsApplied++
 			f.record(svc, call, reqs, multi, files, false)
 			return nil, fmt.Errorf("injected transport error")
 		case "status500":
+			f.FaultsApplied++
 			f.record(svc, call, reqs, multi, files, false)
 			return httpResp(500, []byte(`{"errors":[{"message":"boom"}]}`)), nil
 		case "notjson":
+			f.FaultsApplied++
 			f.record(svc, call, reqs, multi, files, false)
 			return httpResp(200, []byte("<html>not json</html>")), nil
 		case "object":
+			f.FaultsApplied++
 			f.record(svc, call, reqs, multi, files, false)
 			return httpResp(200, []byte(`{"data":{}}`)), nil
 		}
 	}
 	out := f.record(svc, call, reqs, multi, files, true)
 	if fault != nil {
-		out = applyFault(out, fault)
+		var applied bool
+		out, applied = applyFault(out, fault)
+		if applied {
+			f.FaultsApplied++
+		}
+	}
+	if f.Taint {
+		collectLeaves(gqlref.Norm(out), f.Values)
 	}
 	var b []byte
 	if multi {
@@ -249,9 +264,6 @@ func (f *Fakes) record(svc, call int, reqs []wireReq, multi bool, files map[stri
 		}
 		e := &gqlref.Eval{Schema: s.Schema, Res: f.W.ForService(svc, f.Cnt[svc]), Vars: cv}
 		data := e.Exec(root, gqlref.Obj{"__t": root}, op.SelectionSet)
-		if f.Taint {
-			collectLeaves(gqlref.Norm(data), f.Values)
-		}
 		out[i] = map[string]interface{}{"data": data}
 	}
 	return out
@@ -359,7 +371,8 @@ func setPath(cur interface{}, parts []string, val interface{}) {
 }
 
 // applyFault rewrites a well-formed answer array according to an element-level fault.
-func applyFault(out []interface{}, ft *Fault) []interface{} {
+func applyFault(out []interface{}, ft *Fault) ([]interface{}, bool) {
+	applied := false
 	pos := ft.Pos
 	if pos >= len(out) {
 		pos = len(out) - 1
@@ -374,27 +387,39 @@ func applyFault(out []interface{}, ft *Fault) []interface{} {
 	switch ft.Kind {
 	case "short":
 		if len(out) > 0 {
-			return out[:len(out)-1]
+			return out[:len(out)-1], true
 		}
 	case "long":
-		return append(out, map[string]interface{}{"data": map[string]interface{}{}})
+		return append(out, map[string]interface{}{"data": map[string]interface{}{}}), true
 	case "empty":
-		return []interface{}{}
+		return []interface{}{}, len(out) > 0
 	case "errors1":
 		if m := el(); m != nil {
 			out[pos] = map[string]interface{}{"data": nil, "errors": []interface{}{errPayload(1)}}
+			applied = true
 		}
 	case "errors2":
 		if m := el(); m != nil {
 			out[pos] = map[string]interface{}{"data": m["data"], "errors": []interface{}{errPayload(1), errPayload(2)}}
+			applied = true
 		}
 	case "datanull":
 		if m := el(); m != nil {
 			out[pos] = map[string]interface{}{"data": nil}
+			applied = true
 		}
 	case "nodata":
 		if m := el(); m != nil {
 			out[pos] = map[string]interface{}{}
+			applied = true
+		}
+	case "entry-scalar", "entry-null", "obj-scalar", "list-object", "no-id", "foreign-id", "field-null", "obj-list":
+		if m := el(); m != nil {
+			cp := gqlref.Norm(m["data"])
+			if shapeFault(cp, ft.Kind) {
+				out[pos] = map[string]interface{}{"data": cp}
+				applied = true
+			}
 		}
 	case "nonode", "nodestring", "nodelist", "nodenumber":
 		if m := el(); m != nil {
@@ -415,11 +440,12 @@ func applyFault(out []interface{}, ft *Fault) []interface{} {
 						nd["node"] = 42
 					}
 					out[pos] = map[string]interface{}{"data": nd}
+					applied = true
 				}
 			}
 		}
 	}
-	return out
+	return out, applied
 }
 
 func errPayload(i int) map[string]interface{} {
@@ -430,3 +456,75 @@ func errPayload(i int) map[string]interface{} {
 		"locations":  []interface{}{map[string]interface{}{"line": 1.0, "column": float64(i + 1)}},
 	}
 }
+
+// shapeFault rewrites the first place (depth-first, sorted keys) of a data tree where the
+// given schema-contradicting shape can be produced.  Returns false if there is none.
+func shapeFault(v interface{}, kind string) bool {
+	switch x := v.(type) {
+	case map[string]interface{}:
+		keys := make([]string, 0, len(x))
+		for k := range x {
+			keys = append(keys, k)
+		}
+		sortStrs(keys)
+		if kind == "no-id" || kind == "foreign-id" {
+			if _, ok := x["id"]; ok && len(x) > 1 {
+				if kind == "no-id" {
+					delete(x, "id")
+				} else {
+					x["id"] = "ZZ_9"
+				}
+				return true
+			}
+		}
+		for _, k := range keys {
+			switch c := x[k].(type) {
+			case []interface{}:
+				if kind == "list-object" {
+					x[k] = map[string]interface{}{"unexpected": "object"}
+					return true
+				}
+				if len(c) > 0 {
+					if _, isObj := c[0].(map[string]interface{}); isObj {
+						if kind == "entry-scalar" {
+							c[0] = "scalar-entry"
+							return true
+						}
+						if kind == "entry-null" {
+							c[0] = nil
+							return true
+						}
+					}
+				}
+			case map[string]interface{}:
+				if kind == "obj-scalar" && k != "node" {
+					x[k] = "scalar-instead-of-object"
+					return true
+				}
+				if kind == "obj-list" && k != "node" {
+					x[k] = []interface{}{c}
+					return true
+				}
+			case string, float64, bool:
+				if kind == "field-null" && k != "id" && k != "__typename" {
+					x[k] = nil
+					return true
+				}
+			}
+		}
+		for _, k := range keys {
+			if shapeFault(x[k], kind) {
+				return true
+			}
+		}
+	case []interface{}:
+		for _, e := range x {
+			if shapeFault(e, kind) {
+				return true
+			}
+		}
+	}
+	return false
+}
+
+func sortStrs(s []string) { sort.Strings(s) }
